@@ -239,6 +239,49 @@ def label_shapes(quick):
     return out
 
 
+def two_function_modules(quick, rng):
+    """wave 6: TWO functions with labels in one module (G and the fixed two-label function H), lref items to the labels
+    of either (L -> G, M -> H) in every interleaving: mir.c keeps one list of lrefs per FUNCTION (func->first_lref,
+    built by link_module_lrefs walking the module once, filled in when that function is prepared), so the order of the
+    lref items in the module and which function is prepared first must not matter.  All L/M patterns of length 2..4,
+    functions before / after / between the lrefs, engines rotating (quick) or all (thorough), + random mixes with data
+    and bss between."""
+    import itertools
+    ls = ['L - 0 - 0', 'L - 1 - 8', 'L - 2 1 0', 'L - 2 - fffffffffffffff9', 'L - 0 2 4']
+    ms = ['M - 0 - 0', 'M - 1 - 8', 'M - 1 0 0', 'M - 0 1 4', 'M - 1 - 0']
+    engines = ['i', 'g0', 'g2', 'l2', 'b0', 'b2', 'g1', 'g3']
+    out = []
+    n = 0
+    for ln in (2, 3, 4):
+        for pat in itertools.product('LM', repeat=ln):
+            items = [(ls if k == 'L' else ms)[(i + n) % 5] for i, k in enumerate(pat)]
+            for place in range(4):
+                mod = {0: ['G', 'H'] + items, 1: ['H', 'G'] + items, 2: items + ['G', 'H'],
+                       3: ['G'] + items[:1] + ['H'] + items[1:]}[place]
+                for e in (engines if not quick else [engines[n % 8], engines[(n + 3) % 8]]):
+                    out.append('%s : %s' % (e, ' ; '.join(mod)))
+                n += 1
+    for _ in range(1500 if quick else 12000):
+        k = rng.choice([2, 3, 4, 6, 9])
+        items = []
+        for i in range(k):
+            r = rng.random()
+            if r < 0.4:
+                l2 = '-' if rng.random() < 0.6 else str(rng.randrange(3))
+                items.append('L - %d %s %x' % (rng.randrange(3), l2, rand_disp(rng) if rng.random() < 0.5 else 0))
+            elif r < 0.8:
+                l2 = '-' if rng.random() < 0.6 else str(rng.randrange(2))
+                items.append('M - %d %s %x' % (rng.randrange(2), l2, rand_disp(rng) if rng.random() < 0.5 else 0))
+            elif r < 0.9:
+                items.append('D - u8 %x' % rng.randrange(256))
+            else:
+                items.append('B - %d' % rng.choice([1, 3, 8]))
+        items.insert(rng.randrange(len(items) + 1), 'G')
+        items.insert(rng.randrange(len(items) + 1), 'H')
+        out.append('%s : %s' % (rng.choice(engines), ' ; '.join(items)))
+    return out
+
+
 BOUNDARY = [
     'T',
     'i : D - u8 -',
@@ -500,6 +543,7 @@ def run(chk):
         cases += [l.strip() for l in open(corpus) if l.strip() and not l.startswith('#')]
     cases += exhaustive(3 if quick else 5)
     cases += label_shapes(quick)
+    cases += two_function_modules(quick, chk.rng('two-functions'))
     nfixed = len(cases)
     rng = chk.rng('items')
     nrand = 15000 if quick else 120000
@@ -508,7 +552,7 @@ def run(chk):
     chk.log('%d cases (%d boundary/corpus/exhaustive, %d random)' % (len(cases), nfixed, nrand))
     for c in cases:
         ks = kinds_of(c)
-        chk.count(c, nontrivial=sum(1 for k in ks if k in 'DBREL') >= 2)
+        chk.count(c, nontrivial=sum(1 for k in ks if k in 'DBRELM') >= 2)
         for k in ks:
             chk.dist('items', k)
         chk.dist('iface', c[0])
